@@ -61,6 +61,15 @@ pub enum COp {
   CloneDrop,
   Observe,
   Yield,
+  /// the consumer goes idle (keeps its handle, receives nothing) for up to `rounds` scheduling
+  /// rounds or until every producer has finished: senders that can proceed must do so without
+  /// any further help from the receiving side
+  Pause {
+    rounds: u16,
+    /// go idle right after whatever was received, without first probing for Empty
+    #[serde(default)]
+    eager: bool,
+  },
 }
 
 #[derive(Clone, Copy, Debug, Serialize, Deserialize, PartialEq)]
@@ -134,7 +143,21 @@ impl Knobs {
     // (half of all runs, decided by the run's seed: a knob, not a fault)
     c.rates = FaultRates { cas_weak: self.cas_weak, spurious_park_return: self.park_return, post_write_yield: self.seed & 1 == 0,
       // (a quarter of the non-PCT runs; under PCT a spinning top-priority thread must yield)
-      lazy_spin: (self.seed >> 1) & 3 == 0 && !matches!(self.mode, ModeSer::Pct(..)) };
+      lazy_spin: (self.seed >> 1) & 3 == 0 && !matches!(self.mode, ModeSer::Pct(..)),
+      // (fault-injecting configurations only: a quarter of them, at one of two rates)
+      post_write_stall: if self.spurious_rate == 0 && self.cas_weak == 0 && self.park_return == 0 {
+        0
+      } else {
+        match (self.seed >> 4) & 7 {
+          0 => 2000,
+          1 => 6000,
+          _ => 0,
+        }
+      } };
+    if let Some(v) = std::env::var("VERIF_FORCE_STALL").ok().and_then(|v| v.parse::<u32>().ok()) {
+      // (experiments only)
+      c.rates.post_write_stall = v;
+    }
     c.max_steps = self.max_steps as usize;
     c.record_trace = record_trace;
     c
@@ -181,6 +204,8 @@ pub enum EvK {
   Observe { tx_side: bool, len: Option<usize>, cap: Option<usize>, full: Option<bool>, empty: Option<bool>, closed: bool },
   ConsumerBail,
   HoldOpenTimeout,
+  /// an idle phase of a consumer: (tokens sent Ok, tokens received, len()) half-way and at the end
+  Pause { rounds: u16, used: u16, mid: Option<(u32, u32, usize)>, end: (u32, u32, usize), cap: usize, producers_done: bool, saw_empty: bool },
 }
 
 #[derive(Clone, Debug)]
@@ -212,11 +237,13 @@ pub(crate) struct Shared {
   pub(crate) next_handle: AtomicU32,
   pub(crate) sent_ok: AtomicU32,
   pub(crate) received: AtomicU32,
+  /// producer threads that ran to their end
+  pub(crate) producers_done: AtomicU32,
 }
 
 impl Shared {
   pub(crate) fn new() -> Shared {
-    Shared { next_handle: AtomicU32::new(0), sent_ok: AtomicU32::new(0), received: AtomicU32::new(0) }
+    Shared { next_handle: AtomicU32::new(0), sent_ok: AtomicU32::new(0), received: AtomicU32::new(0), producers_done: AtomicU32::new(0) }
   }
   pub(crate) fn handle_id(&self) -> u16 {
     self.next_handle.fetch_add(1, Ordering::SeqCst) as u16
@@ -316,6 +343,7 @@ pub(crate) fn run_producer(idx: usize, p: &Producer, mut tx: Box<dyn Tx>, mut hi
   let inv = next_seq();
   drop(tx);
   record(actor, hid, inv, EvK::TxDrop);
+  sh.producers_done.fetch_add(1, Ordering::SeqCst);
 }
 
 fn ctx_no_park<R>(f: impl FnOnce() -> R) -> R {
@@ -419,6 +447,63 @@ pub(crate) fn run_consumer(idx: usize, nprod: usize, c: &Consumer, mut rx: Box<d
           record(actor, hid, inv, k);
         }
         COp::Yield => shuttle::thread::yield_now(),
+        COp::Pause { rounds, eager } => {
+          // Only right after this consumer has itself seen the channel empty through try_recv:
+          // whatever it drained is then visible to the producers by every flavour's own rules
+          // (lazily published credits are flushed when the receiver finds nothing), so a
+          // producer with work left needs no further help from the receiving side.
+          let cap = rx.capacity().unwrap_or(0);
+          if cap == 0 || rx.len().is_none() {
+            continue;
+          }
+          let is_async = rx.is_async();
+          let res = if *eager {
+            if got_total == 0 {
+              continue;
+            }
+            RRes::Empty
+          } else {
+            let inv = next_seq();
+            let (form, out) = do_recv(&mut rx, RecvForm::Try, 1, 0, Plan::NONE);
+            let n = out.got.iter().filter(|x| **x != u32::MAX).count();
+            got_total += n;
+            sh.received.fetch_add(n as u32, Ordering::SeqCst);
+            let res = out.res;
+            record(actor, hid, inv, EvK::Recv { form, out, is_async, max: 1 });
+            res
+          };
+          match res {
+            RRes::Disconnected => {
+              done = true;
+              break 'outer;
+            }
+            RRes::Empty => {
+              let inv = next_seq();
+              let snap = |rx: &Box<dyn Rx>| (sh.sent_ok.load(Ordering::SeqCst), sh.received.load(Ordering::SeqCst), rx.len().unwrap_or(usize::MAX));
+              let mut mid = None;
+              let mut used = 0u16;
+              for i in 0..*rounds {
+                if sh.producers_done.load(Ordering::SeqCst) as usize >= nprod {
+                  break;
+                }
+                if i == *rounds / 2 {
+                  mid = Some(snap(&rx));
+                }
+                shuttle::thread::yield_now();
+                used += 1;
+              }
+              let end = snap(&rx);
+              let producers_done = sh.producers_done.load(Ordering::SeqCst) as usize >= nprod;
+              record(actor, hid, inv, EvK::Pause { rounds: *rounds, used, mid, end, cap, producers_done, saw_empty: !*eager });
+            }
+            _ => {}
+          }
+          if let Some(q) = c.quota {
+            if got_total >= q as usize {
+              break 'outer;
+            }
+          }
+        }
       }
     }
   }
@@ -501,7 +586,7 @@ pub fn scenario_main() {
   let scn: Arc<ChanSc> = CUR.with(|c| c.borrow().clone()).expect("no current scenario");
   {
     let sc = scn.clone();
-    let sh = Arc::new(Shared { next_handle: AtomicU32::new(0), sent_ok: AtomicU32::new(0), received: AtomicU32::new(0) });
+    let sh = Arc::new(Shared { next_handle: AtomicU32::new(0), sent_ok: AtomicU32::new(0), received: AtomicU32::new(0), producers_done: AtomicU32::new(0) });
     let (tx0, rx0) = make(sc.flavour, sc.cap, sc.async_ctor);
     let tx0_id = sh.handle_id();
     let rx0_id = sh.handle_id();
